@@ -521,21 +521,21 @@ template<class T>
 Vec3_<T> Matrix4_<T>::eulerAngles(int a0, int a1, int a2) const
 {
 	T r0, r1, r2;
-	// within a few ulps of gimbal lock the small elements are rounding noise: use the locked formulas there
-	const T lim = sizeof(T) == sizeof(float) ? T(1 - 5e-7) : T(1 - 1e-15);
+	// only when the cosine (sine) of the middle angle is within a few ulps of zero are the small elements rounding noise
+	const T lim = sizeof(T) == sizeof(float) ? T(2e-6) : T(4e-15);
 
 	if (a0 != a2)
 	{
 		T s = (a1 - a0 + 3) % 3 == 1 ? -1.0f : 1.0f;
-		if (fabs(at(a0, a2)) < lim)
+		T c = sqrt(at(a0, a0) * at(a0, a0) + at(a0, a1) * at(a0, a1));
+		r1 = atan2(-s * at(a0, a2), c);
+		if (c > lim)
 		{
-			r1 = asin(-s * at(a0, a2));
 			r2 = atan2(s * at(a1, a2), at(a2, a2));
 			r0 = atan2(s * at(a0, a1), at(a0, a0));
 		}
 		else
 		{
-			r1 = -at(a0, a2) * s * ((T)PI / 2);
 			r2 = at(a0, a2) * atan2(-s * at(a1, a0), at(a1, a1));
 			r0 = 0;
 		}
@@ -545,15 +545,15 @@ Vec3_<T> Matrix4_<T>::eulerAngles(int a0, int a1, int a2) const
 	{
 		int k = 3 - a0 - a1;
 		T s = (a1 - a0 + 3) % 3 == 2 ? -1.0f : 1.0f;
-		if (fabs(at(a0, a0)) < lim)
+		T c = sqrt(at(a1, a0) * at(a1, a0) + at(k, a0) * at(k, a0));
+		r1 = atan2(c, at(a0, a0));
+		if (c > lim)
 		{
-			r1 = acos(at(a0, a0));
 			r2 = atan2(at(a1, a0), -s * at(k, a0));
 			r0 = atan2(at(a0, a1), s * at(a0, k));
 		}
 		else
 		{
-			r1 = at(a0, a0) < 0 ? (T)PI : 0;
 			r2 = at(a0, a0) * atan2(-s * at(a1, k), at(a1, a1));
 			r0 = 0;
 		}
